@@ -76,7 +76,11 @@ func (s SchemaJ) isTB() bool { return !s.Exempt && s.MI == nil && s.GMI == nil &
 func look(ul flowcontrols.UpstreamLimiter, name int) (SeenJ, flowcontrol.FlowControl, string) {
 	fc, ok := ul.Load(hname(name))
 	if !ok || fc == nil {
-		return SeenJ{Kind: "none"}, nil, "none"
+		return SeenJ{Kind: "none"}, nil, "no limiter at all (Load finds nothing: requests fall back to the system-default exempt limiter)"
+	}
+	// what the dispatcher asks
+	if d := ul.GetOrDefault(hname(name)); d == flowcontrol.DefaultFlowControl {
+		return SeenJ{Kind: "none"}, nil, "the system-default exempt limiter (GetOrDefault)"
 	}
 	inner := remote.VerifC06Inner(fc)
 	switch inner.Type() {
@@ -209,6 +213,9 @@ func checkHistMode(c *rig.Ctx, cs Case, wall bool) *failure {
 				fc, ok := ul.Load(hname(*op.Acq))
 				if !ok || fc == nil {
 					outs = append(outs, histStepOut{})
+					if e, configured := open[*op.Acq]; configured && fail == nil {
+						fail = &failure{"judge", "c06.inforce", fmt.Sprintf("op %d: a request under schema %s, configured as a token bucket (qps=%d, burst=%d), finds no limiter (it would be served by the system-default exempt limiter)", i, hname(*op.Acq), e.curQ, e.curB), nil, nil}
+					}
 					continue
 				}
 				adm := fc.TryAcquire()
